@@ -274,6 +274,36 @@ func init() {
 		g.quiesce()
 		return mkBool(ok)
 	})
+	V("RunClockTo", func(g *G, a []Value, pos token.Pos) Value {
+		// fires, in deadline order, every pending timer whose (concrete) deadline is not after t, letting everything
+		// run in between; then the clock reads at least t. Timers armed meanwhile are included.
+		tv := a[0].(IntV)
+		if tv.S != nil {
+			panic(unsupported("RunClockTo with a symbolic time"))
+		}
+		t := int64(tv.C)
+		for i := 0; i < 64; i++ {
+			g.quiesce()
+			var best *TimerV
+			for _, tm := range g.vm.pendingTimers() {
+				if tm.deadline.S != nil {
+					panic(unsupported("RunClockTo with a symbolic timer deadline pending"))
+				}
+				if int64(tm.deadline.C) <= t && (best == nil || int64(tm.deadline.C) < int64(best.deadline.C)) {
+					best = tm
+				}
+			}
+			if best == nil {
+				break
+			}
+			g.vm.fireTimer(best)
+		}
+		g.quiesce()
+		if g.vm.now.S == nil && int64(g.vm.now.C) < t {
+			g.vm.now = IntV{C: uint64(t)}
+		}
+		return nil
+	})
 	V("FireTimerNow", func(g *G, a []Value, pos token.Pos) Value {
 		// fires one pending timer without waiting for quiescence before or after: usable from any goroutine,
 		// so that a timer callback races with whatever else is going on
